@@ -221,7 +221,6 @@ func oracleClosed(c ClosedCase, o *h.Obs) *h.Fail {
 		}
 	}
 	r := runOnce(src, runDeadline, 64)
-	t := c.Ch.Type
 	switch {
 	case r.hostPanic != "":
 		return h.Failf("C16|host-panic|closed|"+r.hostPanicNorm, "a Go panic escaped into the host\nsource:\n%s\npanic: %s", src, r.hostPanic)
@@ -242,7 +241,7 @@ func oracleClosed(c ClosedCase, o *h.Obs) *h.Fail {
 			if sameNumber(g, want[i]) {
 				cl = "conversion"
 			}
-			return h.Failf("C16|closed-"+cl+"|"+t, "observation #%d (%s): got %s, expected %s\nsource:\n%s", i, labels[i], g, want[i], src)
+			return h.Failf("C16|closed-"+cl, "observation #%d (%s): got %s, expected %s\nsource:\n%s", i, labels[i], g, want[i], src)
 		}
 	}
 	if len(obs) != len(want) {
@@ -250,7 +249,7 @@ func oracleClosed(c ClosedCase, o *h.Obs) *h.Fail {
 		if len(obs) < len(want) {
 			cl = labels[len(obs)]
 		}
-		return h.Failf("C16|closed-"+cl+"|"+t, "%d observations, expected %d\nsource:\n%s", len(obs), len(want), src)
+		return h.Failf("C16|closed-"+cl, "%d observations, expected %d\nsource:\n%s", len(obs), len(want), src)
 	}
 	return nil
 }
